@@ -1251,6 +1251,8 @@ def main(outfile):
 
     import py2lean_fsmtables                                     # separate module: FSM tables, __init__, _run_cb, _send_events, _event (C03)
     py2lean_fsmtables.main_fsmtables(os.path.join(os.path.dirname(outfile), 'TranslatedFsmTables.lean'), write_if_changed)
+    import py2lean_timerblk                                      # separate module: Timer, class FSM (C04)
+    py2lean_timerblk.main_timerblk(os.path.join(os.path.dirname(outfile), 'TranslatedTimerBlk.lean'), sys.modules[__name__])
 
 if __name__ == '__main__':
     main(sys.argv[1])
